@@ -23,17 +23,19 @@ theorem source_shape :
 exactly the tasks that are still alive -/
 theorem wait_group_counts_the_living (evs : List AcctEv) :
     (Acct.run {} evs).wg = (Acct.run {} evs).alive.length := by
-  sorry
+  exact (Acct.inv_reachable evs).1
 
 /-- the waiter in `term()` is released only when no actor is left -/
 theorem term_returns_only_when_all_stopped (evs : List AcctEv) (h : (Acct.run {} evs).waiter.pc = 2) :
     ∃ pre post, evs = pre ++ post ∧ (Acct.run {} pre).alive = [] := by
-  sorry
+  obtain ⟨pre, post, he, hidle⟩ := waiter_done_implies_idle_at_some_poll evs h
+  exact ⟨pre, .poll :: post, he, hidle⟩
 
 /-- … and it IS released once they have all stopped: no wake-up is lost, whenever the waiter was polled before -/
 theorem term_returns_when_all_stopped (evs : List AcctEv) (h : (Acct.run {} evs).alive = []) :
     (Acct.run {} (evs ++ [.poll, .poll])).waiter.pc = 2 := by
-  sorry
+  rw [Acct.run_append]
+  exact Acct.idle_two_polls _ (Acct.inv_reachable evs) h
 
 -- nobody is left uninformed --------------------------------------------------------------------------------------------------
 
@@ -41,17 +43,18 @@ theorem term_returns_when_all_stopped (evs : List AcctEv) (h : (Acct.run {} evs)
 100 ms; one that subscribed in time learns at once -/
 theorem handshaking_session_always_learns (late : Bool) :
     ∃ t, (sessionInHandshake (!late)).learnsBy = some t ∧ t ≤ 100 := by
-  sorry
+  cases late <;> decide
 
 /-- a connecter learns at the latest before its next attempt -/
 theorem retrying_connecter_always_learns (late : Bool) (ivl : Nat) :
     ∃ t, (connecterRetrying (!late) ivl).learnsBy = some t ∧ t ≤ ivl := by
-  sorry
+  refine ⟨_, connecterRetrying_learnsBy (!late) ivl, ?_⟩
+  cases late <;> simp
 
 /-- the earlier shape: an actor that relies on the bus alone and subscribed after the event never finds out -/
 theorem bus_only_actor_misses_the_event :
     ({ subscribedBeforeEvent := false, readsBus := true, checksParent := false, pollMs := 0 } : Notice).learnsBy = none := by
-  sorry
+  decide
 
 -- a closed socket answers --------------------------------------------------------------------------------------------------------
 
@@ -60,12 +63,12 @@ repeated close) -/
 theorem closed_socket_never_hangs (phase : LoopPhase) (hp : phase ≠ .running) (op : ApiOp) :
     apiResult (Gen.commandLoopAnswersQueuedCommands == 1) phase op = .error
     ∨ (op = .close ∧ apiResult (Gen.commandLoopAnswersQueuedCommands == 1) phase op = .ok) := by
-  sorry
+  cases phase <;> cases op <;> first | exact absurd rfl hp | decide
 
 /-- the earlier shape: a control call queued behind the shutdown (a second close(), a close() racing with term()) waited
 for ever -/
 theorem unanswered_mailbox_hangs : apiResult false .exited .close = .hangs ∧ apiResult false .shuttingDown .bind = .hangs := by
-  sorry
+  decide
 
 -- names are free again ---------------------------------------------------------------------------------------------------------------
 
@@ -74,6 +77,9 @@ the name can be bound again -/
 theorem names_are_released (evs : List RegEv) (s : Nat) (n : String) (h : RegEv.loopExit s ∈ evs)
     (hlast : ∀ pre post, evs = pre ++ [RegEv.loopExit s] ++ post → RegEv.register s ∉ post) :
     (n, s) ∉ (Registry.run {} evs).inproc := by
-  sorry
+  obtain ⟨pre, post, rfl⟩ := List.append_of_mem h
+  have hpost := hlast pre post (by simp)
+  have := Registry.gone_after_loopExit {} pre post s hpost
+  simpa using this.2 n
 
 end Rzmq.C16
